@@ -14,6 +14,27 @@ use std::thread::ThreadId;
 static TRACKING: AtomicBool = AtomicBool::new(false);
 static JITTER: AtomicU64 = AtomicU64::new(0);
 static JITTER_COUNTER: AtomicU64 = AtomicU64::new(0);
+static EDGE_DELAY_ON: AtomicBool = AtomicBool::new(false);
+
+/// (substring of the held lock's class, substring of the requested lock's class, microseconds)
+fn edge_delay() -> &'static std::sync::Mutex<Option<(String, String, u64)>> {
+    static D: OnceLock<std::sync::Mutex<Option<(String, String, u64)>>> = OnceLock::new();
+    D.get_or_init(|| std::sync::Mutex::new(None))
+}
+
+/// Schedule steering: a thread that requests a lock whose class contains `to` while it holds a
+/// lock whose class contains `from` sleeps `micros` before the request. `micros == 0` switches
+/// the steering off. Only active while tracking is on.
+pub fn set_edge_delay(from: &str, to: &str, micros: u64) {
+    let mut d = edge_delay().lock().unwrap_or_else(|e| e.into_inner());
+    if micros == 0 {
+        *d = None;
+        EDGE_DELAY_ON.store(false, Ordering::SeqCst);
+    } else {
+        *d = Some((from.to_string(), to.to_string(), micros));
+        EDGE_DELAY_ON.store(true, Ordering::SeqCst);
+    }
+}
 
 /// One observed "requested `to` while holding `from`".
 #[derive(Clone, Debug)]
@@ -24,13 +45,15 @@ pub struct Edge {
     pub to_id: usize,
     pub thread: String,
     pub count: u64,
+    /// `file:line` of the first request that produced this edge.
+    pub site: String,
 }
 
 #[derive(Default)]
 struct Registry {
     edges: HashMap<(usize, usize), Edge>,
     owner: HashMap<usize, (ThreadId, String)>,
-    waiting: HashMap<ThreadId, (usize, &'static str)>,
+    waiting: HashMap<ThreadId, (usize, &'static str, String)>,
     deadlocks: Vec<String>,
 }
 
@@ -41,6 +64,7 @@ fn registry() -> &'static std::sync::Mutex<Registry> {
 
 thread_local! {
     static HELD: RefCell<Vec<(usize, &'static str)>> = const { RefCell::new(Vec::new()) };
+    static SITE: std::cell::Cell<Option<&'static std::panic::Location<'static>>> = const { std::cell::Cell::new(None) };
 }
 
 /// Switches recording on or off (process wide) and forgets what was recorded.
@@ -69,6 +93,14 @@ pub fn deadlocks() -> Vec<String> {
 
 fn short(class: &'static str) -> &'static str {
     class
+}
+
+/// `file:line` of the `lock()` call this thread is executing.
+fn site() -> String {
+    match SITE.with(|s| s.get()) {
+        Some(l) => format!("{}:{}", l.file(), l.line()),
+        None => "?".to_string(),
+    }
 }
 
 pub struct Mutex<T: ?Sized> {
@@ -133,7 +165,7 @@ impl<T: ?Sized> Mutex<T> {
             HELD.with(|h| h.borrow_mut().push((id, class)));
             let me = std::thread::current();
             let mut r = registry().lock().unwrap_or_else(|e| e.into_inner());
-            r.owner.insert(id, (me.id(), me.name().unwrap_or("?").to_string()));
+            r.owner.insert(id, (me.id(), format!("{}' (got it at {})", me.name().unwrap_or("?"), site())));
             r.waiting.remove(&me.id());
         }
         MutexGuard { guard: Some(g), id, tracked }
@@ -155,6 +187,7 @@ impl<T: ?Sized> Mutex<T> {
                 to_id: id,
                 thread: me.name().unwrap_or("?").to_string(),
                 count: 0,
+                site: site(),
             });
             e.count += 1;
         }
@@ -163,9 +196,9 @@ impl<T: ?Sized> Mutex<T> {
             r.deadlocks.push(d.clone());
             return Some(d);
         }
-        r.waiting.insert(me.id(), (id, class));
+        r.waiting.insert(me.id(), (id, class, site()));
         // follow owner -> what the owner waits for -> its owner ...
-        let mut chain = vec![format!("'{}' waits for {} ({:#x})", me.name().unwrap_or("?"), class, id)];
+        let mut chain = vec![format!("'{}' waits at {} for {} ({:#x})", me.name().unwrap_or("?"), site(), class, id)];
         let mut cur = id;
         for _ in 0..64 {
             let Some((otid, oname)) = r.owner.get(&cur).cloned() else { break };
@@ -174,15 +207,20 @@ impl<T: ?Sized> Mutex<T> {
                 r.deadlocks.push(d.clone());
                 return Some(d);
             }
-            let Some((wid, wclass)) = r.waiting.get(&otid).cloned() else { break };
-            chain.push(format!("'{}' which waits for {} ({:#x})", oname, wclass, wid));
+            let Some((wid, wclass, wsite)) = r.waiting.get(&otid).cloned() else { break };
+            chain.push(format!("'{} which waits at {} for {} ({:#x})", oname, wsite, wclass, wid));
             cur = wid;
         }
         None
     }
 
+    #[track_caller]
     pub fn lock(&self) -> LockResult<MutexGuard<'_, T>> {
         let tracked = TRACKING.load(Ordering::Relaxed);
+        if tracked {
+            let caller = std::panic::Location::caller();
+            SITE.with(|s| s.set(Some(caller)));
+        }
         if !tracked {
             return match self.inner.lock() {
                 Ok(g) => Ok(self.wrap(g, false)),
@@ -190,6 +228,14 @@ impl<T: ?Sized> Mutex<T> {
             };
         }
         Self::jitter();
+        if EDGE_DELAY_ON.load(Ordering::Relaxed) {
+            let d = edge_delay().lock().unwrap_or_else(|e| e.into_inner()).clone();
+            if let Some((from, to, micros)) = d {
+                if std::any::type_name::<T>().contains(to.as_str()) && HELD.with(|h| h.borrow().iter().any(|(_, c)| c.contains(from.as_str()))) {
+                    std::thread::sleep(std::time::Duration::from_micros(micros));
+                }
+            }
+        }
         // fast path
         match self.inner.try_lock() {
             Ok(g) => {
@@ -231,6 +277,7 @@ impl<T: ?Sized> Mutex<T> {
                 to_id: id,
                 thread: me.name().unwrap_or("?").to_string(),
                 count: 0,
+                site: site(),
             });
             e.count += 1;
         }
